@@ -50,6 +50,7 @@ def plan(prop, tier):
     P[prop].append(('L8', lambda: LY.L8(tier, sch)))
     P[prop].append(('L7m', lambda: LY.L7m(tier, sch)))
     P[prop].append(('L1p', lambda: LY.L1p(tier, sch)))
+    P[prop].append(('L8b', lambda: LY.L8b(tier, sch)))
     if prop in ('C02', 'C07', 'C14', 'C09', 'C03', 'C04'):
         P[prop].append(('L6r', lambda: (s for s in LY.L6r(tier) if s.sched in sch)))
     if prop in ('C03', 'C04', 'C14'):
